@@ -199,6 +199,28 @@ func main() {
 			w.RegistrationResponse = &pb.RegistrationResponse{DstPort: proto.Uint32(8443)}
 		}
 		msg, _ := proto.Marshal(w)
+		// ---- non-initial state: every other case runs on a manager that has already ingested another client's
+		// (admissible) dual-stack registration and an inadmissible one; admission of the message under test
+		// must not depend on that history
+		if e.Out.Evaluations%2 == 1 {
+			for _, wm := range []vfix.Msg{
+				{Secret: vfix.Secret(6), Transport: pb.TransportType_Min, V4: true, V6: true, Gen: 1, LibVer: 4, Covert: "93.184.216.34:443", Source: pb.RegistrationSource_API, Addr: []byte{203, 0, 113, 50}},
+				{Secret: vfix.Secret(7), Transport: pb.TransportType_Min, V4: true, Gen: 1, LibVer: 4, Covert: "10.0.0.9:443", Source: pb.RegistrationSource_API, Addr: []byte{203, 0, 113, 51}},
+			} {
+				venum.Guard(func() {
+					if rs, err := rm.VerifParseRegMessage(wm.Bytes()); err == nil {
+						for _, r := range rs {
+							if r != nil {
+								rm.VerifIngest(r)
+							}
+						}
+					}
+				})
+			}
+			anns = anns[:0]
+			shares = shares[:0]
+			tester.Calls = nil
+		}
 		// ---- run
 		var regs []*lib.DecoyRegistration
 		var perr error
